@@ -340,5 +340,34 @@ def r16_10(ctx):
     delegate(ctx, c03.r03_1, lambda c: "self.ranges" in c)
 
 
+def r16_11(ctx):
+    """R16.11 the baseline is what the file says: between the line regex and the stores of the user value / the file's baseline,
+    _load_config rewrites the value text only in the ways the writer undoes - first character of a bool, unescape of a quoted
+    string, the float normaliser (the writer emits normalised floats), the y/n swap of an inverted alias and the `is not set`
+    default. Any other re-spelling (adding `0x`, stripping zeros, changing case) makes the session's baseline differ from the
+    bytes on disk, so needs_save() is False while saving would change the file."""
+    repo = ctx.repo
+    f = repo.func(f"{CORE}:Kconfig._load_config")
+    ctx.analysed(f.qual)
+    allowed = ("match.groups()", "_normalize_float(val)", "val[0]", "unescape(match.group(1))", "unescape(", "'n' if val.startswith('y') else 'y'",
+               "_deprecated_unset_val if _deprecated_unset_val is not None else 'n'", "set_match(line).groups()")
+    n = 0
+    for st in ast.walk(f.node):
+        if not (isinstance(st, ast.Assign) and repo.enclosing_func(st) is f):
+            continue
+        if not any(isinstance(t, ast.Name) and t.id == "val" for tt in st.targets for t in ast.walk(tt)):
+            continue
+        n += 1
+        v = ast.unparse(st.value).replace('"', "'")
+        construct = f"Kconfig._load_config/value text rewritten only as the writer undoes (`{v[:40]}`)"
+        if isinstance(st.value, ast.Constant) or any(v == a or (a.endswith("(") and v.startswith(a)) or v.endswith(a) for a in allowed):
+            ctx.ok(construct, f.loc(st))
+        else:
+            ctx.bad(construct, f"`{ast.unparse(st)[:70]}` re-spells the value read from the file: the recorded baseline (and the stored user value) is no longer "
+                    "the text on disk", f.loc(st))
+    if n < 5:
+        raise AnalysisError(f"only {n} assignments to the value text found in _load_config")
+
+
 def rules():
-    return [("R16.10", r16_10, 2), ("R16.9", r16_9, 2), ("R16.8", r16_8, 2), ("R16.7", r16_7, 3), ("R16.1", r16_1, 2), ("R16.2", r16_2, 11), ("R16.3", r16_3, 3), ("R16.4", r16_4, 2), ("R16.5", r16_5, 6), ("R16.6", r16_6, 4)]
+    return [("R16.11", r16_11, 5), ("R16.10", r16_10, 2), ("R16.9", r16_9, 2), ("R16.8", r16_8, 2), ("R16.7", r16_7, 3), ("R16.1", r16_1, 2), ("R16.2", r16_2, 11), ("R16.3", r16_3, 3), ("R16.4", r16_4, 2), ("R16.5", r16_5, 6), ("R16.6", r16_6, 4)]
